@@ -587,7 +587,8 @@ class StageExecutor(ThreadPoolExecutor):
                 self.by_type[tname] = c
                 if c > self.max_by_type.get(tname, 0):
                     self.max_by_type[tname] = c
-            self.w.log.add('exec.submit', stage_of=self.stage, seq=seq, outstanding=self.outstanding, task=type(fn).__name__)
+            tid = getattr(getattr(fn, '_transfer_coordinator', None), 'transfer_id', None)
+            self.w.log.add('exec.submit', stage_of=self.stage, seq=seq, outstanding=self.outstanding, task=type(fn).__name__, tid=tid)
 
             def run(*a, **k):
                 self.w.log.add('exec.start', stage_of=self.stage, seq=seq, task=type(fn).__name__)
@@ -597,7 +598,7 @@ class StageExecutor(ThreadPoolExecutor):
                     with self._cnt_lock:
                         self.outstanding -= 1
                         self.by_type[tname] -= 1
-                    self.w.log.add('exec.finish', stage_of=self.stage, seq=seq, task=type(fn).__name__)
+                    self.w.log.add('exec.finish', stage_of=self.stage, seq=seq, task=type(fn).__name__, tid=tid)
 
             try:
                 return super().submit(run, *args, **kwargs)
